@@ -829,28 +829,45 @@ class TrajectoryStore:
         # Create output directory.
         os.mkdir(output_store)
 
-        # Move input stores to output directory.
-        for input_store in input_stores:
-            p = Path(input_store)
-            dest = Path(output_store) / p.name
-            os.rename(p, dest)
+        moved: list[tuple[Path, Path]] = []
+        try:
+            # Move input stores to output directory.
+            for input_store in input_stores:
+                p = Path(input_store)
+                dest = Path(output_store) / p.name
+                os.rename(p, dest)
+                moved.append((p, dest))
 
-        # Create merged index.
-        if indexable:
-            TrajectoryStore._create_merged_store_index(output_store, input_stores)
+            # Create merged index.
+            if indexable:
+                TrajectoryStore._create_merged_store_index(output_store, input_stores)
 
-        # Write metadata JSON file to output directory.
-        data = dict(stores=store_data, created=datetime.now(tz=UTC).isoformat())
-        if title is not None:
-            data['title'] = title
-        if comment is not None:
-            data['comment'] = comment
-        if history is not None:
-            data['history'] = history
-        if source is not None:
-            data['source'] = source
-        with open(Path(output_store) / 'metadata.json', 'w') as f:
-            json.dump(data, f)
+            # Write metadata JSON file to output directory. This is done last:
+            # a merged store with a metadata file is complete.
+            data = dict(stores=store_data, created=datetime.now(tz=UTC).isoformat())
+            if title is not None:
+                data['title'] = title
+            if comment is not None:
+                data['comment'] = comment
+            if history is not None:
+                data['history'] = history
+            if source is not None:
+                data['source'] = source
+            with open(Path(output_store) / 'metadata.json', 'w') as f:
+                json.dump(data, f)
+        except BaseException:
+            # The merge was interrupted: put the input files back where they
+            # came from and remove the partial output directory, so that no
+            # trajectory is lost and the merge can be retried.
+            for leftover in ('metadata.json', '_index.nc'):
+                (Path(output_store) / leftover).unlink(missing_ok=True)
+            for p, dest in reversed(moved):
+                os.rename(dest, p)
+            try:
+                os.rmdir(output_store)
+            except OSError:
+                pass
+            raise
 
     def get_flight(self, flight_id: int) -> Trajectory | None:
         """Lookup a trajectory by flight ID."""
